@@ -170,6 +170,38 @@ SPECS = {
             ("w_i_new", "w_i_new", 2, "w_i_new", "ice mass fraction m_ice/(mass_water + mass_solute)"),
             ("sigma_new", "sigma_new", 1, "sigma_new", "closed part of sigma_new: normalisation of the volume integral"),
         ]),
+    "OpCond": dict(
+        file="GenOpCond.lean", namespace="Snow.Gen.OC",
+        module="SnowProofs.Props.GenTie.OpCond", thm_ns="Snow.GenTie.OC",
+        hand="SnowModel/OpCond.lean (and Flake.timeVec/kCNof)", func="operatingConditions.py / Snowflake.run",
+        title="from src/ethz_snow/operatingConditions.py and the time axis of Snowflake.run (snowflake.py)",
+        groups=[
+            ("operatingConditions.py", "OperatingConditions.holding@setter", [
+                dict(name="holding_order", target="value", occ=2, kind="sortkey", thm="holding_order",
+                     clause="holds sorted by (temp, duration), descending"),
+            ]),
+            ("operatingConditions.py", "OperatingConditions.tempProfile", [
+                dict(name="n", target="n", thm="n", clause="n = int(ceil(t_tot/dt)) + 1"),
+                dict(name="t_hold", target="t_hold", thm="hold_count", clause="t_hold = (T_start - T_hold)/cr"),
+                dict(name="T_vec_holding", target="T_vec_holding", thm="hold_count",
+                     clause="plateau: int(ceil((duration - t_hold % dt)/dt)) copies of T_hold"),
+            ]),
+            ("operatingConditions.py", "OperatingConditions._simpleCool", [
+                dict(name="t_end", target="t_end", thm="simple_cool", clause="t_end = (Tstart - Tend)/rate"),
+                dict(name="t_vec", target="t_vec", thm="simple_cool", clause="np.arange(0, t_end, dt): length ceil(t_end/dt), values i dt"),
+                dict(name="T_profile", target="T_profile", thm="simple_cool", clause="T_profile = Tstart - t_vec rate"),
+            ]),
+            ("operatingConditions.py", "OperatingConditions.cnt", [
+                dict(name="cnt_t_vec", target="t_vec", thm="cnt_t_vec", clause="t_vec = np.arange(0, len(T_vec))"),
+                dict(name="I_endHold", target="I_endHold", thm="cnt", clause="the test T >= cnTemp of the reversed 1-second profile"),
+            ]),
+            ("snowflake.py", "Snowflake.run", [
+                dict(name="N_timeSteps", target="N_timeSteps", thm="N_timeSteps", clause="N_timeSteps = int(ceil(t_tot/dt)) + 1"),
+                dict(name="t", target="t", ints=["N_timeSteps"], thm="time_vec", clause="t = np.arange(N_timeSteps) dt"),
+                dict(name="k_CN", target="k_CN", thm="k_CN", clause="the test t >= cnt whose first hit is k_CN"),
+                dict(name="k_CN_none", target="k_CN", occ=2, ints=["N_timeSteps"], thm="k_CN", clause="k_CN = N_timeSteps + 1 when no time reaches cnt"),
+            ]),
+        ]),
 }
 
 
@@ -180,6 +212,12 @@ def module(which: str) -> str:
 def regenerate(which: str) -> bool:
     """rewrite the generated formula file from the CURRENT source; raises TranslatorError"""
     sp = SPECS[which]
+    if "groups" in sp:
+        groups = [(translate.source(fn), fn, func,
+                   [F(d["name"], d["target"], d.get("occ", 1), d.get("ints", ()), d.get("kind", "expr")) for d in ds])
+                  for (fn, func, ds) in sp["groups"]]
+        text = translate._parse_guard(translate.translate_formula_groups, groups, sp["namespace"], sp["title"])
+        return translate._write(translate.GEN_DIR / sp["file"], text)
     src = translate.source(sp["source"])
     specs = [F(name, target, occ) for (name, target, occ, _t, _c) in sp["formulas"]]
     text = translate._parse_guard(translate.translate_formulas, src, sp["source"], sp["func"], specs,
@@ -190,7 +228,9 @@ def regenerate(which: str) -> bool:
 def theorems(which: str):
     sp = SPECS[which]
     by_thm = {}
-    for (name, _target, _occ, thm, clause) in sp["formulas"]:
+    rows = sp["formulas"] if "formulas" in sp else [
+        (d["name"], d["target"], d.get("occ", 1), d["thm"], d["clause"]) for (_f, _fn, ds) in sp["groups"] for d in ds]
+    for (name, _target, _occ, thm, clause) in rows:
         by_thm.setdefault(thm, []).append(f"`{name}` ({clause})")
     return [dict(name=f"{sp['thm_ns']}.{thm}",
                  clause=f"{sp['func']}: generated {'; '.join(parts)} = formula of the hand model {sp['hand']}",
